@@ -298,3 +298,20 @@ func Contract(evs []Event) string {
 	}
 	return ""
 }
+
+// KeepRecorder is a Recorder that additionally keeps the strings it was handed
+// through OnString and OnKey without copying them, as a consumer storing them would.
+type KeepRecorder struct {
+	Recorder
+	Kept []string
+}
+
+func (r *KeepRecorder) OnString(s string) error {
+	r.Kept = append(r.Kept, s)
+	return r.Recorder.OnString(s)
+}
+
+func (r *KeepRecorder) OnKey(s string) error {
+	r.Kept = append(r.Kept, s)
+	return r.Recorder.OnKey(s)
+}
